@@ -160,6 +160,8 @@ fn exhaustive_unary(a: Node) -> Vec<Op> {
         Op::AppendText(a, "x".to_string()),
         Op::TextContentMut(a, "y".to_string()),
         Op::NewDocWithElement(a),
+        Op::ClearMap(a, true),
+        Op::ClearMap(a, false),
     ]
 }
 
@@ -180,6 +182,8 @@ struct NodeState {
 struct ForestState {
     nodes: HashMap<Node, NodeState>,
     serialised: BTreeMap<String, String>,
+    /// the Xot's text-consolidation switch (a refused call must not flip it either)
+    consolidation: bool,
 }
 
 fn forest_state(xot: &Xot) -> Result<ForestState, String> {
@@ -207,12 +211,15 @@ fn forest_state(xot: &Xot) -> Result<ForestState, String> {
                 serialised.insert(format!("{:?}", n), s);
             }
         }
-        ForestState { nodes, serialised }
+        ForestState { nodes, serialised, consolidation: xot.verif_text_consolidation() }
     });
     r.map_err(|p| format!("panic while taking the forest snapshot: {}", p.short()))
 }
 
 fn state_diff(a: &ForestState, b: &ForestState, xot: &Xot) -> String {
+    if a.consolidation != b.consolidation {
+        return format!("the text-consolidation switch of the Xot went from {} to {}", a.consolidation, b.consolidation);
+    }
     for (n, s) in &a.nodes {
         match b.nodes.get(n) {
             None => return format!("node {} was live before the refused call and is gone after it", s.value),
